@@ -1,7 +1,7 @@
 (* C11 — property theorems only.  Every proof is `exact <lemma>` or a closed computation on a refutation witness. *)
 From Coq Require Import List NArith ZArith Bool.
 Import ListNotations.
-From VF Require Import C11.Model C11.Proofs C11.ProofsB C11.Corr C11.ProofsS.
+From VF Require Import C11.Model C11.Proofs C11.ProofsB C11.Corr C11.ProofsS C11.ProofsL.
 Local Open Scope N_scope.
 
 (* The in-memory provider (repaired Query) returns, for EVERY operation sequence from EVERY content, exactly what the
@@ -76,6 +76,30 @@ Proof. intros s pre ops Hs Hpre Hops.
   apply stack_rel_rewrap; [assumption|].
   apply (sim_run_state wf_op false (prov_of s) (stack_rel s)); [apply stack_sim; assumption|assumption|apply stack_rel_init; assumption]. Qed.
 Print Assumptions mem_stack_rewrap_refines.
+
+
+(* LevelDB.  FULL statement (every history returns what the contract prescribes, Close keeps the data): REFUTED by the
+   model of the code as it is — obs #8, corpus/C11/leveldb-stale-tag-index.json, known finding
+   leveldb:name-only-query:stale-tag-index (the TagMap index is never cleaned when a key is re-Put without a tag). *)
+Theorem leveldb_refines_refuted :
+  let ops := [Put 1 1 [(1, 1)]; Put 1 2 []; GetTags 1; Query [(1, 0)]] in
+  run leveldb (init leveldb) ops <> run (spec_prov true) [] ops.
+Proof. vm_compute. discriminate. Qed.
+Print Assumptions leveldb_refines_refuted.
+
+(* PARTIAL: for every history WITHOUT queries (batches well-formed: no ':' tags, an empty key at most in first
+   position), from every content, LevelDB returns what the contract prescribes: Put/Get/GetTags/GetBulk/Delete/Batch
+   in order/Flush/Close+re-open (data kept).  Query results are compared on the implementation only (direct oracle +
+   correspondence with the faithful index model). *)
+Theorem leveldb_refines_partial : forall (ops : list op) (s : St leveldb),
+  forallb ldb_ok_op ops = true -> run leveldb s ops = run (spec_prov true) (fst s) ops.
+Proof. intros ops s H. apply (sim_run ldb_ok_op true leveldb (fun s a => fst s = a) ldb_sim); [exact H|reflexivity]. Qed.
+Print Assumptions leveldb_refines_partial.
+
+Example leveldb_partial_nonvacuous :
+  let ops := [Put 1 1 [(1, 1)]; Put 1 2 []; GetTags 1; Batch [(2, 3, [(2, 2)]); (1, 0, [])]; Reopen; Get 1; Get 2; GetBulk [1; 2]] in
+  forallb ldb_ok_op ops = true /\ run leveldb (init leveldb) ops = [ODone; ODone; OTags []; ODone; ODone; ONotFound; OVal 3; OBulk [0; 3]].
+Proof. vm_compute. split; reflexivity. Qed.
 
 (* non-vacuity: a depth-3 stack, a history with overwrite, batch, delete, conjunction query, re-open *)
 Example stack_nonvacuous :
